@@ -36,7 +36,7 @@ ASSUMPTIONS = ['same(v,w) is the hand-written canon of the spec language: type e
                'pickle is not a route for big-endian ndarrays (numpy itself normalises the byte order for protocol < 5), for functions and for classes that cannot be imported by name',
                'objects derived from meshes and Systems are compared among themselves only where a behavioural description through public attributes differs; they are not compared with constructor terms',
                'every hash is computed with no other corpus object alive, so that the interning defect (part 2) cannot leak into the corpus verdicts']
-BUDGET_S = {'quick': 900, 'thorough': 3600}
+BUDGET_S = {'quick': 1800, 'thorough': 3600}   # wall-clock guards only (the box is shared); CPU: quick ~8 min, thorough ~25 min summed over all workers
 SEEDS = (0, 1, 12345)
 
 
